@@ -6,8 +6,9 @@
     query examples carry quotes and reserved characters; phase subsets incl. stateful.
     Oracle: ``yaml.safe_load`` / ``json.loads`` / ``xml.etree`` parse the files; the set of interaction ids in the cassette
     and the HAR equals the set of case ids of the requests the API answered, each exactly once; method, URL, status agree
-    with the server log; response bodies are byte-exact (base64) with preserve-bytes and equal as text for valid UTF-8
-    otherwise; the CLI output shows no handler error.
+    with the server log (VCR and HAR, entry by entry); the recorded `X-Note` response header equals the latin-1 value
+    sent (incl. C1 controls); response bodies are byte-exact (base64) with preserve-bytes and equal as text for valid
+    UTF-8 otherwise (HAR `text` has no charset of its own: it must be the UTF-8 text); no handler error in the output.
   * ``yaml_scalar``: ``write_double_quoted(text)`` must round-trip through ``yaml.safe_load`` for any text (Hypothesis
     text biased to the code points YAML treats specially).
 """
@@ -48,7 +49,7 @@ def report_case(draw):
             "status": draw(st.sampled_from([200, 200, 500, 404, 204])),
             "body": draw(st.sampled_from(BODIES)),
             "content_type": draw(st.sampled_from(["application/json", "text/plain", "application/octet-stream", "text/plain; charset=latin-1"])),
-            "header": draw(st.sampled_from([None, "plain", "caf\xe9 latin", "quote'd \"x\"", "a: b, c"])),
+            "header": draw(st.sampled_from([None, "plain", "caf\xe9 latin", "quote'd \"x\"", "a: b, c", "c1 \x80 and \x9f end", "back\\slash \xff"])),
             "example": draw(st.sampled_from([None, "it's", "a b&c=d", "50%", "é✓", "#frag?"])),
             "drop": draw(st.integers(0, 9)) == 0,
         })
@@ -177,6 +178,9 @@ def check_reports(ctx: Ctx, inp) -> None:
                 if op is not None:
                     if str(i["response"]["status"]["code"]) != str(op["status"]):
                         ctx.disagree("vcr:status-differs", f"{i['response']['status']['code']} vs {op['status']}", input=inp)
+                    noted = [v for k, vs in (i["response"].get("headers") or {}).items() if k.lower() == "x-note" for v in vs]
+                    if op["header"] is not None and noted != [op["header"]]:
+                        ctx.disagree("vcr:response-header-differs", f"recorded X-Note {noted!r}, sent {op['header']!r}", input=inp)
                     sent = op["body"].encode("latin-1") if op["status"] != 204 else b""
                     body = i["response"].get("body")
                     if inp["preserve_bytes"]:
@@ -213,6 +217,35 @@ def check_reports(ctx: Ctx, inp) -> None:
                 ctx.disagree("har:entries-differ-from-the-traffic" + (":final-replay-of-an-erroring-stateful-scenario" if False else ""), f"HAR has {len(got_urls)} answered entries, the API answered {len(want_urls)} requests (difference {missing})", input=inp)
             elif inp["sanitize"] and len(got_urls) != len(want_urls):
                 ctx.disagree("har:entries-differ-from-the-traffic", f"HAR has {len(got_urls)} answered entries, the API answered {len(want_urls)} requests", input=inp)
+            for e in entries:
+                if not e.get("response", {}).get("status"):
+                    continue
+                cid = next((h["value"] for h in e["request"].get("headers", []) if h["name"].lower() == "x-schemathesis-testcaseid"), None)
+                req = by_id.get(cid)
+                op = _op_for(inp, req) if req is not None else None
+                if op is None:
+                    continue
+                if e["request"]["method"] != req.method:
+                    ctx.disagree("har:method-differs", f"{e['request']['method']} vs {req.method}", input=inp)
+                if e["response"]["status"] != op["status"]:
+                    ctx.disagree("har:status-differs", f"{e['response']['status']} vs {op['status']}", input=inp)
+                if op["header"] is not None:
+                    got_h = [h["value"] for h in e["response"].get("headers", []) if h["name"].lower() == "x-note"]
+                    if got_h != [op["header"]]:
+                        ctx.disagree("har:response-header-differs", f"recorded X-Note {got_h!r}, sent {op['header']!r}", input=inp)
+                sent = op["body"].encode("latin-1") if op["status"] != 204 else b""
+                content = e["response"].get("content") or {}
+                text = content.get("text") or ""
+                if inp["preserve_bytes"]:
+                    try:
+                        got = base64.b64decode(text) if content.get("encoding") == "base64" else None
+                    except Exception:  # noqa: BLE001
+                        got = None
+                    if got != sent and not (got is None and not sent):
+                        ctx.disagree("har:response-body-not-byte-exact", f"recorded {text[:60]!r} (encoding {content.get('encoding')!r}), sent {sent[:60]!r}", input=inp)
+                elif _valid_utf8(sent) and text != sent.decode("utf-8"):
+                    # HAR `text` is "decoded" content with no charset of its own: for UTF-8 payloads it must be that text
+                    ctx.disagree("har:response-text-differs", f"recorded {text[:60]!r}, sent {sent[:60]!r} ({op['content_type']})", input=inp)
     finally:
         shutil.rmtree(workdir, ignore_errors=True)
 
